@@ -96,6 +96,9 @@ def gen(seed, tier="quick"):
         # level (pure heading): the measured specific force is exactly (anti)parallel to what a level estimate predicts
         q = rm.quat_exp([0, 0, ic.choice([0.0, 0.0, ic.uniform(-math.pi, math.pi)])])
     level_start = 0.10 <= special < 0.20
+    # estimate started with its body z axis along the horizontal field (heading unobservable): decided here
+    # so that the vehicle can be held still while the first heading corrections run in that geometry
+    want_vertical = (not level_start) and ic.random() < 0.2
     if level_start:
         bias = [0.0, 0.0, bias[2]]  # no roll/pitch rate bias: estimate and truth stay exactly level
     segs = []
@@ -108,6 +111,8 @@ def gen(seed, tier="quick"):
 
     if level_start:
         segs[0] = (0.0, [0.0, 0.0, ic.choice([0.0, 0.5])])  # stays level while the first corrections run
+    if want_vertical:
+        segs[0] = (0.0, [0.0, 0.0, 0.0])
 
     def omega_at(tt):
         w = segs[0][1]
@@ -192,7 +197,7 @@ def gen(seed, tier="quick"):
                 mag = R.T @ B_n
                 mm = {"kind": "mag", "t_pub": tk, "ts": tk + ts_offset, "mag": mag.tolist(), "fault": None, "q_true": q.tolist()}
                 r2 = flt.random()
-                if init_run and not msgs_have_mag[0] and flt.random() < 0.35:
+                if init_run and not msgs_have_mag[0] and flt.random() < 0.5:
                     r2 = 0.0  # land a fault on the sample the node will initialise from
                     enabled_first = [kk for kk in ("mag_vertical", "sensor_zero_norm", "sensor_scale", "sensor_spike")]
                     for kk in enabled_first:
@@ -242,9 +247,10 @@ def gen(seed, tier="quick"):
     # initial estimator state: default, or an in-domain draw
     x_init = None
     W_init = None
-    if ic.random() < 0.6 and not level_start:
+    vertical_geometry = False
+    if want_vertical or (ic.random() < 0.6 and not level_start):
         rr = math.tan(ic.uniform(0, math.pi) / 4) * _rand_unit(ic)
-        if ic.random() < 0.35:
+        if want_vertical:
             # body z axis (nearly) along the horizontal field direction: the geometry in which the
             # heading update is unobservable and must be refused ("too close to vertical")
             north = rm.Rz(decl) @ np.array([1.0, 0, 0])
@@ -254,12 +260,17 @@ def gen(seed, tier="quick"):
             xb /= np.linalg.norm(xb)
             Rb = np.column_stack([xb, np.cross(zb, xb), zb])
             rr = rm.quat_to_mrp(_R_to_quat(Rb))
+            vertical_geometry = True
         x_init = rr.tolist() + [ic.uniform(-0.2, 0.2) for _ in range(3)]
         L = np.zeros((6, 6))
         for i in range(6):
             L[i, i] = (10 ** ic.uniform(-2.5, 0)) if i < 3 else (10 ** ic.uniform(-3.5, -1))
             for j in range(i):
                 L[i, j] = ic.uniform(-0.3, 0.3) * min(L[i, i], L[j, j])
+        if vertical_geometry and ic.random() < 0.5:
+            # both refusal conditions of the heading update at once: near-vertical geometry and a large tilt uncertainty
+            L[0, 0] = ic.uniform(0.1, 0.6)
+            L[1, 1] = ic.uniform(0.1, 0.6)
         W_init = L.tolist()
 
     return {
